@@ -10,3 +10,37 @@ package net
 //@ func ConsensusHandler.Handle
 //@   property C15
 //@   option trusted recovers
+
+// The identity of a verify / cast message (C15): duplicate suppression in the rounds (CanAccept, StoreMessage) is
+// keyed by Id before any signature is checked, so the id must be the digest of the bytes the peer sent. An id
+// computed from decoded, unauthenticated fields (block hash, claimed signer) lets one faulty member occupy the
+// slot of every other member with forged messages and block finalisation.
+//@ spec abstract fn sha256of(b Bytes) Bytes
+//@ spec abstract fn hexof(b Bytes) string
+//@ func ext_sha256
+//@   option trusted extern=com.tuntun.rangers/node/src/common.Sha256
+//@   ensures bytes(result) == sha256of(old(bytes(arg0)))
+//@   modifies nothing
+
+//@ func ext_toHex
+//@   option trusted extern=com.tuntun.rangers/node/src/common.ToHex
+//@   ensures result == hexof(old(bytes(arg0)))
+//@   modifies nothing
+
+//@ func baseMessage
+//@   option trusted
+//@   ensures result != nil
+//@   modifies nothing
+
+//@ func ext_deserializeSign
+//@   option trusted extern=com.tuntun.rangers/node/src/consensus/groupsig.DeserializeSign
+//@   ensures result != nil
+//@   modifies nothing
+
+//@ func UnMarshalConsensusVerifyMessage
+//@   property C15
+//@   requires [env!init] logger != nil
+//@   ensures [id] result1 == nil ==> result0 != nil && result0.Id == hexof(sha256of(old(bytes(b))))
+
+// (UnMarshalConsensusCastMessage computes its id the same way; it is not under contract: its decoding of the
+// embedded header needs the protobuf well-formedness facts of C09.)
